@@ -48,6 +48,20 @@ def out_val(v, outs):
     else: outs.append((99, 0, []))
 
 
+def plain(v):
+    if isinstance(v, bool): return int(v)
+    if isinstance(v, int): return v
+    if isinstance(v, LinComb): return {"lc": v.value}
+    if isinstance(v, LinCombBool): return {"b": v.lc.value}
+    if isinstance(v, LinCombFxp): return {"fx": v.lc.value}
+    if isinstance(v, float):
+        m, den = v.as_integer_ratio()
+        return {"f": [m, den.bit_length() - 1]}
+    if isinstance(v, (list, tuple)): return [plain(x) for x in v]
+    if v is None: return None
+    return {"other": type(v).__name__}
+
+
 def coherent(v, p, w):
     """C04 oracle: reported value == wire evaluated on the recorded witness (mod p)."""
     bad = []
@@ -96,6 +110,7 @@ def run_stmts(prog, regs, ins, outs, st):
                 v = f(*args) if k is None else f(*(args + [k]))
         else: raise Exception("bad stmt " + op)
         regs[d] = v
+        st["vals"].append((st["pc"], plain(v)))
         out_val(v, outs)
         st["coh"] += coherent(v, R.P, st["w"])
 
@@ -106,7 +121,7 @@ def run_case(case):
     rt.guard = None; rt._ignore_errors = bool(cfg["ign"]); LinComb.ONE = LinComb.ONE_SAFE
     rt.bitlength = cfg["n"]; fx.resolution = cfg["res"]
     w = lambda k: 1 if k == 0 else (R.pubs[k - 1] if k > 0 else R.privs[-k - 1])
-    outs = []; st = {"pc": 0, "coh": [], "w": w}
+    outs = []; st = {"pc": 0, "coh": [], "w": w, "vals": []}
     exn = None; gobs = None
     try:
         run_stmts(case["prog"], {}, case["ins"], outs, st)
@@ -129,7 +144,7 @@ def run_case(case):
            "dig": [D.digest_vars(p, R.kinds, R.pubs, R.privs), D.digest_cons(p, cons), D.digest_outs(p, outs), D.digest_exn(p, exn, cur)],
            "unsat": unsat[:5], "incoherent": st["coh"][:5], "floatbad": st.get("floatbad", False), "pc": st["pc"],
            "shape": [D.digest_cons(p, cons), "".join(R.kinds), D.digest_outs(p, [(t, 0, l) for t, v, l in outs if t > 0])],
-           "outs_tv": [(t, v) for t, v, _ in outs if t >= 0][:200]}
+           "vals": st["vals"][:300]}
     if FULL or case.get("full"):
         rec["trace"] = {"kinds": "".join(R.kinds), "pubs": R.pubs, "privs": R.privs, "cons": cons, "outs": outs, "globals": cur}
     return rec
